@@ -408,7 +408,7 @@ class Gen:
         rng = self.rng
         c = self.cond(depth - 1, scope)
         th, _ = self.block(ret, depth - 1, scope, nest + 1, False, loops, prot)
-        k = rng.choice([0, 0, 0, 1, 1, 2, 3]) if loops else rng.choice([0, 0, 0, 0, 1, 1, 2])
+        k = rng.choice([0, 0, 1, 1, 2, 2, 2, 3]) if loops else rng.choice([0, 0, 0, 0, 1, 1, 2])
         has_else = rng.random() < (0.7 if (k or loops) else 0.5)
         elifs = []
         for _ in range(k):          # in source order: local indices follow the order of appearance
@@ -1299,7 +1299,11 @@ RULE = ("typed-by-construction Arc functions (1-3 parameters over i8..u64,f32,f6
         "declarations, assignments, compound assignments, if/else-if(x0-3)/else nested to depth 2, early returns; "
         "in 40% of the programs bounded loops (range with 1-3 arguments incl. negative steps, counter-controlled "
         "condition loops, 'for {}' with a guarded break) nested to depth 2, with break/continue/return placed in "
-        "if / else-if / final-else branches whose conditions depend on the loop variable; "
+        "if / else-if / final-else branches whose conditions depend on the loop variable, and an accumulator bumped "
+        "after the chains and returned; 22% of the programs have one or two stateful variables ($=; f64/f32/ints) "
+        "stepped through exactly 0 / 0.0 over a sequence of 12 calls; 30% have global constants (negative / zero / "
+        "positive, integer and float, integer literal on a float type) and helper functions "
+        "h(x T, y T = default) called with and without the optional argument; "
         "expressions to depth 4 over literals (boundary values of each width), variables, unary -/not, "
         "^ * / % + -, comparisons, and/or, casts; minimal parentheses by the spec's precedence table), each "
         "called on 8-12 argument vectors (0, +-1, min, max, max-1, powers of two at every width, NaN, +-inf, "
@@ -1323,8 +1327,10 @@ PARTIAL = ("clause 'source the analyzer rejects produces diagnostics, never a cr
            "modelled with the conventional structured-programming reference semantics (with fuel) and covered by the "
            "byte-for-byte code correspondence, the value correspondence and the monitor on every run, but NOT by the "
            "theorems: C19_compile_correct_partial and C19_validates_partial are proved for loop-free functions. "
-           "Outside the modelled fragment: series iteration, stateful variables ($=), function calls, multi-output "
-           "functions, series, strings, channels, units, flows and sequences. The theorem excludes the nine "
+           "The same holds for stateful variables ($=, sequences of invocations), global constants and calls of "
+           "helper functions with a default parameter value: modelled and compared on every run, outside the "
+           "theorems. Outside the modelled fragment: series iteration, recursion and general function calls, "
+           "multi-output functions, series, strings, channels, units, flows and sequences. The theorem excludes the nine "
            "signatures of coq/theories/Arc/Guard.v (known findings), each with a proved witness that the compiler "
            "diverges from spec.md there.")
 READY = True
